@@ -975,6 +975,336 @@ pub fn fam_cumulative2(seed: u64, tier: &str, index: u64) -> Scenario {
     Scenario { fam: "cumulative2".into(), id: index, opts, steps: g.steps, engine: index % 3 == 0 }
 }
 
+/// `cumulative3` (C08): a half-reified cumulative whose literal is decided AFTER the start
+/// times. While the literal is unassigned the wrapped propagator is notified of every bound
+/// change but never propagates; blocking clauses of the solution iteration then make the literal
+/// true by propagation after a backjump, and the wrapped propagator has to see every mandatory
+/// part that arose in the meantime (found by the thorough tier: the incremental time-tables
+/// dropped such updates when backtracking was not incremental). Tight capacities, 1-3 tasks,
+/// input order (starts, literal, free variables) or any brancher; the option combination is
+/// index-driven; all solutions are iterated.
+pub fn fam_cumulative3(seed: u64, tier: &str, index: u64) -> Scenario {
+    let mut g = Gen::new(rng_for(seed, "cumulative3", index), params(tier));
+    let all = CumOpts::all();
+    let copts = all[(index as usize) % all.len()];
+    let ntasks = g.rng.gen_range(1..=3);
+    let mut starts = vec![];
+    for _ in 0..ntasks {
+        let w = g.rng.gen_range(2..=3);
+        let lo = g.rng.gen_range(-1..=2);
+        let v = g.add_int_var_with((lo..lo + w).collect(), false);
+        let x = match g.rng.gen_range(0..5) {
+            0 => View { v, s: 1, o: g.rng.gen_range(-2..=1) },
+            1 => View { v, s: -1, o: g.rng.gen_range(1..=3) },
+            _ => View::var(v),
+        };
+        starts.push(x);
+    }
+    let d: Vec<i32> = (0..ntasks).map(|_| g.rng.gen_range(1..=3)).collect();
+    let r: Vec<i32> = (0..ntasks).map(|_| g.rng.gen_range(1..=2)).collect();
+    // a single task is given a usage above the capacity, several tasks overload together
+    let cap = if ntasks == 1 { g.rng.gen_range(0..=1) } else { g.rng.gen_range(0..=2) };
+    let l = g.add_lit();
+    let pos = g.rng.gen_bool(0.5);
+    let rv = if pos { View::var(l) } else { View { v: l, s: -1, o: 1 } };
+    // free variables declared last: the conflicts with blocking clauses happen below the literal
+    let nfree = g.rng.gen_range(1..=2);
+    for _ in 0..nfree {
+        let w = g.rng.gen_range(2..=3);
+        let _ = g.add_int_var_with((0..w).collect(), false);
+    }
+    g.post(Cons::Imp { r: rv, c: Box::new(Cons::Cumulative { s: starts, d, r, cap, opts: copts }) }, false);
+    if g.rng.gen_bool(0.3) {
+        let k = *["lin_le", "lin_ne", "bin_lt"].choose(&mut g.rng).unwrap();
+        let c2 = g.cons_of_kind(k);
+        g.post(c2, false);
+    }
+    // the value selector that tries the inactive polarity of the literal first (in-domain min for
+    // a positive literal, max for a negated one), or any value selector / brancher
+    let br = match g.rng.gen_range(0..4) {
+        0 | 1 => BrSpec { kind: "indep".into(), var: 2, val: if pos { 4 } else { 1 } },
+        2 => BrSpec { kind: "indep".into(), var: 2, val: g.rng.gen_range(0..NUM_VAL_SEL) },
+        _ => g.random_brancher(),
+    };
+    g.steps.push(Step::Iterate { br, max: 100000, stop_at: None, resume: false });
+    let mut opts = if g.rng.gen_bool(0.5) { Opts::default() } else { g.random_opts() };
+    if opts.restart_base <= 3 && opts.high_lbd_limit <= 4 {
+        opts.high_lbd_limit = 4000;
+    }
+    Scenario { fam: "cumulative3".into(), id: index, opts, steps: g.steps, engine: index % 3 == 0 }
+}
+
+/// Solves n-queens by backtracking (first solution in lexicographic order after a seeded rotation).
+fn queens_solution(n: usize, first: usize) -> Vec<i32> {
+    fn go(n: usize, row: usize, first: usize, q: &mut Vec<i32>) -> bool {
+        if row == n {
+            return true;
+        }
+        for k in 0..n {
+            let c = ((k + if row == 0 { first } else { 0 }) % n) as i32;
+            if (0..row).all(|r| q[r] != c && (q[r] - c).abs() != (row - r) as i32) {
+                q.push(c);
+                if go(n, row + 1, first, q) {
+                    return true;
+                }
+                let _ = q.pop();
+            }
+        }
+        false
+    }
+    let mut q = vec![];
+    let ok = go(n, 0, first, &mut q);
+    assert!(ok, "harness: no queens solution");
+    q
+}
+
+/// `planted_chain` (C02, C01): implication chains y_0 -> y_1 -> ... -> y_L over 0-1 variables,
+/// longer than the recursion limit (500) of the recursive nogood minimiser in a third of the
+/// scenarios, next to a small random clause gadget over the chain ends and a few extra variables.
+/// The all-zero chains with a random gadget assignment are planted solutions (every gadget clause
+/// is generated with one literal true under it). Input order with the largest value first sets a
+/// whole chain by one decision; the conflicts of the gadget then have reasons as deep as the chain.
+pub fn fam_planted_chain(seed: u64, tier: &str, index: u64) -> Scenario {
+    let mut g = Gen::new(rng_for(seed, "planted_chain", index), params(tier));
+    let nchains = g.rng.gen_range(1..=2);
+    let mut ends: Vec<u32> = vec![];
+    let mut witness: Vec<i32> = vec![1];
+    let mut chains: Vec<Vec<u32>> = vec![];
+    for _ in 0..nchains {
+        let len = match index % 3 {
+            0 => g.rng.gen_range(520..=700),
+            1 => g.rng.gen_range(40..=200),
+            _ => g.rng.gen_range(3..=30),
+        };
+        let ys: Vec<u32> = (0..=len).map(|_| g.add_int_var_with(vec![0, 1], false)).collect();
+        for _ in 0..=len {
+            witness.push(0);
+        }
+        ends.push(*ys.last().unwrap());
+        chains.push(ys);
+    }
+    let nextra = g.rng.gen_range(3..=6);
+    let mut extra: Vec<u32> = vec![];
+    for _ in 0..nextra {
+        extra.push(g.add_int_var_with(vec![0, 1], false));
+        witness.push(g.rng.gen_range(0..=1));
+    }
+    for ys in chains.iter() {
+        for w in ys.windows(2) {
+            g.post(
+                Cons::Clause {
+                    ps: vec![
+                        Pred { x: View::var(w[0]), op: Op::Le, k: 0 },
+                        Pred { x: View::var(w[1]), op: Op::Ge, k: 1 },
+                    ],
+                },
+                false,
+            );
+        }
+    }
+    // the gadget: the planted values of the extra variables are implied one after the other from
+    // the first one, which is itself forced (both values of a helper refute its complement), and a
+    // few random clauses over chain ends and extras that hold under the planted assignment
+    let lit = |v: u32, val: i32| Pred { x: View::var(v), op: if val == 1 { Op::Ge } else { Op::Le }, k: val };
+    let wv = |w: &Vec<i32>, v: u32| w[(v - 1) as usize];
+    for k in 1..extra.len() {
+        // extra[0] = planted -> extra[k] = planted
+        let a = lit(extra[0], 1 - wv(&witness, extra[0]));
+        let b = lit(extra[k], wv(&witness, extra[k]));
+        if g.rng.gen_bool(0.7) {
+            g.post(Cons::Clause { ps: vec![a, b] }, false);
+        }
+    }
+    // the conflict: chain end = 1 together with the planted extras is forbidden
+    for e in ends.clone() {
+        let mut ps = vec![lit(e, 0)];
+        let k = g.rng.gen_range(1..=2.min(extra.len()));
+        for x in extra.iter().skip(1).take(k) {
+            ps.push(lit(*x, 1 - wv(&witness, *x)));
+        }
+        g.post(Cons::Clause { ps }, false);
+    }
+    // the complement of extra[0] is impossible, which only propagation finds out
+    let helper = g.add_int_var_with(vec![0, 1], false);
+    witness.push(g.rng.gen_range(0..=1));
+    let keep = lit(extra[0], wv(&witness, extra[0]));
+    g.post(Cons::Clause { ps: vec![keep, lit(helper, 1)] }, false);
+    g.post(Cons::Clause { ps: vec![keep, lit(helper, 0)] }, false);
+    for _ in 0..g.rng.gen_range(0..=4) {
+        let mut pool: Vec<u32> = extra.clone();
+        pool.extend(ends.iter().copied());
+        pool.shuffle(&mut g.rng);
+        let n = g.rng.gen_range(2..=3.min(pool.len()));
+        let mut ps: Vec<Pred> = pool[..n].iter().map(|v| lit(*v, g.rng.gen_range(0..=1))).collect();
+        // one literal true under the planted assignment
+        ps[0] = lit(pool[0], wv(&witness, pool[0]));
+        g.post(Cons::Clause { ps }, false);
+    }
+    g.steps.push(Step::Witness { vals: witness });
+    let br = match g.rng.gen_range(0..4) {
+        0 | 1 => BrSpec { kind: "indep".into(), var: 2, val: 1 },
+        2 => BrSpec { kind: "indep".into(), var: 2, val: g.rng.gen_range(0..NUM_VAL_SEL) },
+        _ => g.random_brancher(),
+    };
+    g.steps.push(Step::Satisfy { br, stop_at: None });
+    let mut opts = if g.rng.gen_bool(0.6) { Opts::default() } else { g.random_opts() };
+    opts.minimise = opts.minimise || g.rng.gen_bool(0.7);
+    if opts.restart_base <= 3 && opts.high_lbd_limit <= 4 {
+        opts.high_lbd_limit = 4000;
+    }
+    // chronological backtracking without learning does not finish on models of this size within
+    // the harness' poll cap (it is exercised by the small families)
+    opts.resolver = "uip".into();
+    Scenario { fam: "planted_chain".into(), id: index, opts, steps: g.steps, engine: false }
+}
+
+/// `planted_queens` (C01, C07, C18): 2-4 independent n-queens boards (three all-different
+/// constraints over offset views each) next to 4-12 unconstrained 0-1 variables - about 30
+/// variables, a model that search solves with many restarts-worth of conflicts. A backtracking
+/// solution per board plus arbitrary values of the free variables is planted. Branchers of every
+/// kind (alternating strategies included) under eager restarts or any options; the returned
+/// assignment has to be total and has to satisfy all constraints.
+pub fn fam_planted_queens(seed: u64, tier: &str, index: u64) -> Scenario {
+    let mut g = Gen::new(rng_for(seed, "planted_queens", index), params(tier));
+    let boards = g.rng.gen_range(2..=4);
+    let mut witness: Vec<i32> = vec![1];
+    for _ in 0..boards {
+        let n = g.rng.gen_range(5..=7usize);
+        let qs: Vec<u32> = (0..n).map(|_| g.add_int_var_with((0..n as i32).collect(), false)).collect();
+        let first = g.rng.gen_range(0..n);
+        witness.extend(queens_solution(n, first));
+        let plain: Vec<View> = qs.iter().map(|v| View::var(*v)).collect();
+        let up: Vec<View> = qs.iter().enumerate().map(|(i, v)| View { v: *v, s: 1, o: i as i32 }).collect();
+        let down: Vec<View> = qs.iter().enumerate().map(|(i, v)| View { v: *v, s: 1, o: -(i as i32) }).collect();
+        g.post(Cons::Alldiff { xs: plain }, false);
+        g.post(Cons::Alldiff { xs: up }, false);
+        g.post(Cons::Alldiff { xs: down }, false);
+    }
+    let nfree = g.rng.gen_range(4..=12);
+    for _ in 0..nfree {
+        let _ = g.add_int_var_with(vec![0, 1], false);
+        witness.push(g.rng.gen_range(0..=1));
+    }
+    g.steps.push(Step::Witness { vals: witness });
+    let br = match index % 4 {
+        0 => BrSpec { kind: "alt".into(), var: 2, val: 4 * 4 },      // input order / min, every restart
+        1 => BrSpec { kind: "alt".into(), var: g.rng.gen_range(0..NUM_VAR_SEL), val: g.rng.gen_range(0..4 * NUM_VAL_SEL) },
+        2 => BrSpec { kind: "indep".into(), var: g.rng.gen_range(0..NUM_VAR_SEL), val: g.rng.gen_range(0..NUM_VAL_SEL) },
+        _ => g.random_brancher(),
+    };
+    g.steps.push(Step::Satisfy { br, stop_at: None });
+    let mut opts = if index % 2 == 0 {
+        // a restart is considered after every conflict and never skipped
+        Opts { restart: "const".into(), restart_base: 1, restart_min_conflicts: 0, seed: g.rng.gen_range(0..1000), ..Opts::default() }
+    } else {
+        g.random_opts()
+    };
+    if opts.restart_base <= 3 && opts.high_lbd_limit <= 4 {
+        opts.high_lbd_limit = 4000;
+    }
+    // chronological backtracking without learning does not finish on models of this size within
+    // the harness' poll cap (it is exercised by the small families)
+    opts.resolver = "uip".into();
+    Scenario { fam: "planted_queens".into(), id: index, opts, steps: g.steps, engine: false }
+}
+
+/// `planted_sched` (C08): 8-14 tasks on one resource. A random schedule is planted, the capacity
+/// is the peak of its profile (tight), the start windows contain the planted starts, and a few
+/// precedences that the planted schedule respects are added. The option combination of the
+/// cumulative is index-driven; satisfy, or iterate a handful of solutions.
+pub fn fam_planted_sched(seed: u64, tier: &str, index: u64) -> Scenario {
+    let mut g = Gen::new(rng_for(seed, "planted_sched", index), params(tier));
+    let all = CumOpts::all();
+    let copts = all[(index as usize) % all.len()];
+    let ntasks = g.rng.gen_range(8..=14usize);
+    let horizon = g.rng.gen_range(10..=18);
+    let mut starts: Vec<View> = vec![];
+    let mut witness: Vec<i32> = vec![1];
+    let mut d: Vec<i32> = vec![];
+    let mut r: Vec<i32> = vec![];
+    let mut planted: Vec<i32> = vec![];
+    let wide = g.rng.gen_bool(0.5);
+    for _ in 0..ntasks {
+        let dur = g.rng.gen_range(1..=4);
+        let use_ = g.rng.gen_range(1..=3);
+        let s = g.rng.gen_range(0..=(horizon - dur));
+        // wide windows (half of the scenarios): no task has a mandatory part at the root, the
+        // time-table starts empty and is built up during search only
+        let (lo, hi) = if wide {
+            let lo = s - g.rng.gen_range(0..=dur);
+            (lo, (lo + dur + g.rng.gen_range(0..=1)).max(s))
+        } else {
+            ((s - g.rng.gen_range(0..=3)).max(0), (s + g.rng.gen_range(0..=3)).min(horizon - dur))
+        };
+        let v = g.add_int_var_with((lo..=hi).collect(), false);
+        starts.push(View::var(v));
+        witness.push(s);
+        planted.push(s);
+        d.push(dur);
+        r.push(use_);
+    }
+    let mut peak = 0;
+    for t in 0..=horizon {
+        let h: i32 = (0..ntasks).filter(|i| planted[*i] <= t && t < planted[*i] + d[*i]).map(|i| r[i]).sum();
+        peak = peak.max(h);
+    }
+    let cap = peak + if g.rng.gen_bool(0.3) { 1 } else { 0 };
+    let cum = Cons::Cumulative { s: starts.clone(), d: d.clone(), r, cap, opts: copts };
+    let reified = g.rng.gen_range(0..3) == 0;
+    if reified {
+        // the literal is declared last: input order decides it after the start times, in-domain-min
+        // tries the inactive polarity first and the blocking clauses of the iteration then make
+        // it true by propagation - with every start time already fixed
+        let l = g.add_lit();
+        witness.push(1);
+        // free variables below the literal: the conflicts with the blocking clauses happen there,
+        // and the backjump returns to a level at which the start times are fixed already
+        for _ in 0..g.rng.gen_range(1..=2) {
+            let _ = g.add_int_var_with(vec![0, 1], false);
+            witness.push(g.rng.gen_range(0..=1));
+        }
+        g.post(Cons::Imp { r: View::var(l), c: Box::new(cum) }, false);
+    } else {
+        g.post(cum, false);
+    }
+    // precedences respected by the planted schedule: s_i + d_i <= s_j
+    let mut pairs: Vec<(usize, usize)> = vec![];
+    for i in 0..ntasks {
+        for j in 0..ntasks {
+            if i != j && planted[i] + d[i] <= planted[j] {
+                pairs.push((i, j));
+            }
+        }
+    }
+    pairs.shuffle(&mut g.rng);
+    for (i, j) in pairs.into_iter().take(g.rng.gen_range(0..=5)) {
+        // s_i - s_j <= -d_i
+        g.post(Cons::LinLe { terms: vec![starts[i], View { v: starts[j].v, s: -1, o: 0 }], rhs: -d[i] }, false);
+    }
+    g.steps.push(Step::Witness { vals: witness });
+    let br = match g.rng.gen_range(0..3) {
+        0 => BrSpec { kind: "indep".into(), var: 2, val: g.rng.gen_range(0..NUM_VAL_SEL) },
+        1 => BrSpec { kind: "indep".into(), var: 9, val: 4 },        // smallest / min: chronological
+        _ => g.random_brancher(),
+    };
+    if reified {
+        let br = if g.rng.gen_bool(0.7) { BrSpec { kind: "indep".into(), var: 2, val: 4 } } else { br };
+        g.steps.push(Step::Iterate { br, max: 12, stop_at: None, resume: false });
+    } else if index % 3 == 0 {
+        g.steps.push(Step::Iterate { br, max: 6, stop_at: None, resume: false });
+    } else {
+        g.steps.push(Step::Satisfy { br, stop_at: None });
+    }
+    let mut opts = if g.rng.gen_bool(0.5) { Opts::default() } else { g.random_opts() };
+    if opts.restart_base <= 3 && opts.high_lbd_limit <= 4 {
+        opts.high_lbd_limit = 4000;
+    }
+    // chronological backtracking without learning does not finish on models of this size within
+    // the harness' poll cap (it is exercised by the small families)
+    opts.resolver = "uip".into();
+    Scenario { fam: "planted_sched".into(), id: index, opts, steps: g.steps, engine: false }
+}
+
 /// `reif`: one constraint of the catalogue (index-driven kind) posted half-reified, reified or
 /// negated, with the reification literal free / forced before / forced after posting, all
 /// solutions iterated (C09).
@@ -1781,6 +2111,10 @@ pub fn generate(fam: &str, seed: u64, tier: &str, index: u64) -> Scenario {
         "dbclean" => fam_dbclean(seed, tier, index),
         "proof" => fam_proof(seed, tier, index),
         "cumulative2" => fam_cumulative2(seed, tier, index),
+        "cumulative3" => fam_cumulative3(seed, tier, index),
+        "planted_chain" => fam_planted_chain(seed, tier, index),
+        "planted_queens" => fam_planted_queens(seed, tier, index),
+        "planted_sched" => fam_planted_sched(seed, tier, index),
         "rootbounds" => fam_rootbounds(seed, tier, index),
         "interrupt_base" => fam_interrupt_base(seed, tier, index),
         other => panic!("harness: unknown family {other}"),
